@@ -11,6 +11,7 @@ The tie model ↔ Rust is the `texc` correspondence stream.
 import MilaModel.Lemmas.TexCtpk
 import MilaModel.Lemmas.TexBch
 import MilaModel.Lemmas.TexCgfx
+import MilaModel.Lemmas.TexTpl
 
 namespace Mila.Props.C20
 open Mila Mila.Containers Mila.Spec.Tex
@@ -114,5 +115,92 @@ theorem cgfx_prefix_safe (p : Profile) (f : Buf) (texs : List Tex) (hc : Conform
   have := hhi i t ht
   simp only [cuts, Bool.and_eq_true, decide_eq_true_eq] at hcut
   omega
+
+/-- A packed CI8 image of the property's domain decodes, and `unpackTpl` carries exactly that
+decoding (C19 `ci8_block_spec` says what it is). -/
+theorem packed_pixels_tpl (t : Tex) (h : validTpl t = true) :
+    Pixel.tplDecodeImage 2 t.palette 9 t.height t.width t.payload = .ok (unpackTpl t).pixels :=
+  (validTpl_spec h).2.2.2.2
+
+private theorem tpl_of_full {f : Buf} {raws : List Raw} {sf : St} {want : List Texture}
+    (h : run tplProg f ⟨0, [], 0⟩ = .ok (raws, sf))
+    (ha : raws.map (fun r => (⟨[], r.1, r.2.1, r.2.2⟩ : Texture)) = want) : tplRead f = .ok want := by
+  simp [tplRead, h, ha]
+
+/-- **TPL.** A conforming file (CI8 images with RGB5A3 palettes, all pointers absolute) is read as
+the packed images, in order, with their dimensions and empty names. -/
+theorem tpl_read_conforming (f : Buf) (texs : List Tex) (hc : ConformsTpl f texs = true) :
+    tplRead f = .ok (texs.map unpackTpl) := by
+  obtain ⟨raws, sf, h, ha, _⟩ := tpl_full f texs hc
+  exact tpl_of_full h ha
+
+/-- **TPL, wrong magic.** Input that does not start with `00 20 AF 30` is rejected with an error. -/
+theorem tpl_bad_magic (f : Buf) (h : f.size < 4 ∨ be32 f 0 ≠ 0x0020AF30) : ∃ e, tplRead f = .err e := by
+  obtain ⟨e, he⟩ := Containers.tpl_bad_magic f h
+  exact ⟨e, by simp [tplRead, he]⟩
+
+/-- **TPL, truncation.** No panic on any strict prefix; an error whenever the cut removes part of
+an image's data or of its palette. -/
+theorem tpl_prefix_safe (f : Buf) (texs : List Tex) (hc : ConformsTpl f texs = true) (k : Nat) (hk : k < f.size) :
+    tplRead (f.extract 0 k) ≠ .panic ∧
+    ∀ i t, texs[i]? = some t →
+      (cuts k (tplPayloadAt f i) t.payload.size = true ∨ cuts k (tplPaletteAt f i) t.palette.size = true) →
+      ∃ e, tplRead (f.extract 0 k) = .err e := by
+  obtain ⟨raws, sf, h, _, hhi⟩ := tpl_full f texs hc
+  obtain ⟨h1, h2⟩ := prefix_outcome tplProg f k (by omega) raws sf h
+  simp only [pre] at h1 h2
+  constructor
+  · intro hp
+    apply h1
+    simp only [tplRead] at hp
+    split at hp <;> simp_all
+  · intro i t ht hcut
+    obtain ⟨hp, hq⟩ := hhi i t ht
+    have hlt : k < sf.hi := by
+      simp only [cuts, Bool.and_eq_true, decide_eq_true_eq] at hcut
+      omega
+    obtain ⟨e, he⟩ := h2 hlt
+    exact ⟨e, by simp [tplRead, he]⟩
+
+/-! ### non-vacuity: concrete files satisfy the conformance predicates -/
+
+private def le (k n : Nat) : Mila.Buf := (leBytes k n).toArray
+private def be (k n : Nat) : Mila.Buf := (beBytes k n).toArray
+
+/-- A CTPK file with one 8×8 L8 texture named "p" (payload after the name). -/
+private def sampleCtpk : Mila.Buf :=
+  le 4 0x4B505443 ++ le 2 1 ++ le 2 1 ++ le 4 0x44 ++ le 4 64 ++ le 4 0 ++ le 4 0 ++ le 8 0 ++
+  le 4 0x40 ++ le 4 64 ++ le 4 0 ++ le 4 7 ++ le 2 8 ++ le 2 8 ++ le 1 1 ++ le 1 0 ++ le 2 0 ++
+  le 4 0 ++ le 4 0 ++ #[0x70, 0, 0, 0] ++ Array.replicate 64 0x55
+
+example : ConformsCtpk (decodeName .sjis) sampleCtpk
+    [⟨[0x70], [0x70], 8, 8, 7, Array.replicate 64 0x55, #[]⟩] = true := by decide +kernel
+
+/-- A 60-byte BCH file without textures whose content table overlaps the header tail
+(compatibility byte 20: short header). -/
+private def sampleBch : Mila.Buf :=
+  le 4 0x484342 ++ #[20, 0] ++ le 2 0 ++ le 4 16 ++ le 4 0 ++ le 4 0 ++ le 4 0 ++
+  Array.replicate 28 0 ++ le 4 0 ++ le 4 0 ++ le 4 0
+
+example : ConformsBch sampleBch [] = true := by decide +kernel
+
+/-- A CGFX file without textures: header, DATA with entry 1 pointing at an empty DICT. -/
+private def sampleCgfx : Mila.Buf :=
+  le 4 0x58464743 ++ Array.replicate 16 0 ++ le 4 0x41544144 ++ le 4 0 ++
+  le 4 0 ++ le 4 0 ++ le 4 0 ++ le 4 0x74 ++ Array.replicate 112 0 ++
+  le 4 0x54434944 ++ le 4 0 ++ le 4 0 ++ Array.replicate 16 0
+
+example : ConformsCgfx sampleCgfx [] = true := by decide +kernel
+
+/-- A TPL file with one 3×2 CI8 image (padded to 8×4) and a two-entry palette. -/
+private def sampleTpl : Mila.Buf :=
+  be 4 0x0020AF30 ++ be 4 1 ++ be 4 12 ++          -- header; table at 12
+  be 4 20 ++ be 4 56 ++                            -- image header at 20, palette header at 56
+  be 2 2 ++ be 2 3 ++ be 4 9 ++ be 4 68 ++ Array.replicate 24 0 ++   -- image header (36 bytes), data at 68
+  be 2 2 ++ #[0, 0] ++ be 4 2 ++ be 4 100 ++       -- palette header (12 bytes), data at 100
+  Array.replicate 32 1 ++ #[0x80, 0x1F, 0x7F, 0xFF]
+
+example : ConformsTpl sampleTpl
+    [⟨[], [], 3, 2, 9, Array.replicate 32 1, #[0x80, 0x1F, 0x7F, 0xFF]⟩] = true := by decide +kernel
 
 end Mila.Props.C20
